@@ -347,6 +347,33 @@ func checkPlainGraph1(run *core.Run, m *openfgav1.AuthorizationModel, rebuilds i
 				run.Violation("pure-computed-cycle-not-reported", c, "compile-time cycle", pp)
 			}
 		}
+		// converse: a reported compile-time cycle needs a cycle made of computed usersets only; a reported runtime cycle
+		// needs a cycle containing at least one line that is no computed userset
+		if ct || rt {
+			all := R.SCCs(func(*ref.Edge) bool { return true }, func(*ref.Node) bool { return true })
+			allSize := map[int]int{}
+			for _, k := range all {
+				allSize[k]++
+			}
+			pureLoop, mixed := false, false
+			for _, n := range R.Nodes {
+				for _, e := range n.Edges() {
+					if e.To == n && e.Type == "computed" {
+						pureLoop = true
+					}
+					if e.Type != "computed" && all[n] == all[e.To] && (allSize[all[n]] >= 2 || e.To == n) {
+						mixed = true
+					}
+				}
+			}
+			if ct && !pure2 && !pureLoop {
+				run.Violation("compile-time-cycle-reported-without-a-pure-computed-cycle", c, "compile-time flag only for a cycle of computed usersets", fmt.Sprintf("compileTime=%v runtime=%v\n%s", ct, rt, pp))
+			}
+			if rt && !mixed {
+				run.Violation("runtime-cycle-reported-without-a-cycle-through-a-tuple-or-operator", c, "runtime flag only for a cycle with a line that is no computed userset", fmt.Sprintf("compileTime=%v runtime=%v\n%s", ct, rt, pp))
+			}
+			run.Count("cycle_flag_converse_checks", 1)
+		}
 		if len(cyc) == 0 {
 			run.Count("acyclic_models", 1)
 			if ct || rt {
